@@ -5,23 +5,20 @@ build profile: `dbg = true` checked, `dbg = false` release; lemmas: Ymq/Lemmas/S
 `allHits fb s` is the list of ALL `blk[off] += log` sites of `sieve_block` in the order of the code (state `s`
 after `Sieve.sieveBlock`), `hitSum hits x` the total added at position `x`, `byteAt blk x` the byte.
 -/
-import Ymq.Lemmas.SieveLog
-import Ymq.Lemmas.SieveLogSum
+import Ymq.Lemmas.SieveLogCover
+import Ymq.Props.C13
 
 namespace Ymq.C13
 open Ymq.Sieve Ymq.SieveLog
 
-/-- `accumulator_spec_partial`. Whenever the model of `sieve_block` returns the byte array: every `+=` site
+/-- `accumulator_hits_spec`. Whenever the model of `sieve_block` returns the byte array: every `+=` site
 addresses a byte of the block, and byte `x` is the sum of the logs added at `x` by the sites of the code —
 exactly in the checked profile (no wrap happened), modulo 256 in release. Per prime, the sites add
 `bitlen p` exactly once at every position congruent to one of its (one or two, different) cursors and nowhere
 else (`pairHits_sum`: classes ≤ 12, unrolled loop + tails; `singleHits_sum`: classes 13..15), so with the
 cursor invariant (`cursor_inv`) a prime contributes its bit length exactly at the positions where it has a root.
-PARTIAL: not proved is the bookkeeping that the class loops (index ranges from `idx_by_log`) visit every
-non-skipped cursor exactly once and that the bucket entries read back are the registered hits; the closed form
-`blk[x] = Σ bitlen p over the non-skipped primes with a root at x` is what the independent oracle checks on the
-code for every block of every `svb` case. -/
-theorem accumulator_spec_partial (dbg : Bool) (fb : FB) (s : State) (blk : Array Nat)
+(The closed form over the primes is `class_loops_cover` / `accumulator_spec_small` / `accumulator_spec_partial`.) -/
+theorem accumulator_hits_spec (dbg : Bool) (fb : FB) (s : State) (blk : Array Nat)
     (h : blkOf dbg fb s = some blk) :
     ∃ hits, allHits fb s = some hits ∧ blk.size = 32768 ∧ (∀ g ∈ hits, g.1 < 32768) ∧
       (∀ x, byteAt blk x % 256 = hitSum hits x % 256) ∧ (dbg = true → ∀ x, byteAt blk x = hitSum hits x) ∧
@@ -89,8 +86,9 @@ theorem accumulator_overflow_iff (fb : FB) (s : State) (hits : List (Nat × Nat)
 distinct primes dividing a value `v ≠ 0` with `bitlen v + #primes ≤ 256` (the hypothesis of `log_sum_bound`: with
 true roots the primes hitting `x` divide the polynomial value there), no `+=` site of `sieve_block` overflows:
 the checked model returns, and the release model returns the same bytes (no wrap).
-PARTIAL: the link `hitSum hits x ≤ Σ bitlen p` over the primes with a root at `x` is a hypothesis (see
-`accumulator_spec_partial`: each prime's sites add its bit length once per position). -/
+PARTIAL (general factor bases): the link `hitSum hits x ≤ Σ bitlen p` over the primes with a root at `x` is a
+hypothesis here; it is proved for the primes below the block size (`accumulator_no_overflow_small`), what is missing is
+the same for the entries read back from the bucket tables. -/
 theorem accumulator_no_overflow_partial (fb : FB) (s : State) (hits : List (Nat × Nat))
     (hh : allHits fb s = some hits) (hin : ∀ g ∈ hits, g.1 < 32768)
     (hdiv : ∀ x, x < 32768 → ∃ (ps : Finset ℕ) (v : ℕ), (∀ p ∈ ps, p.Prime) ∧ v ≠ 0 ∧ (∀ p ∈ ps, p ∣ v) ∧
@@ -157,5 +155,222 @@ theorem accumulator_overflow_witness (s0 s : State)
 /-- non-vacuity of the witness: the two calls return. -/
 example : ((Sieve.new 0 1 witnessFB witnessR1 witnessR2 none).bind (sieveBlock witnessFB)).isSome = true := by
   decide +kernel
+
+/-! ### closed form: the class loops visit every non-skipped cursor exactly once -/
+
+/-- the state in which `smooths` runs: cursors of block `b` in `lo_prev`. -/
+theorem state_for_block {fb : FB} (hfb : fb.WF) {r1 r2 : Array Nat} (hr : RootsOK fb r1 r2) {offset : Int}
+    {nblocks : Nat} {recycled : Option (Array Table × Array LTable)} (hrec : RecycledOK recycled) {s0 s1 s : State}
+    (h0 : Sieve.new offset nblocks fb r1 r2 recycled = some s0) {b : Nat} (h1 : runBlocks fb b s0 = some s1)
+    (h2 : sieveBlock fb s1 = some s) {nS : Nat} (hnS : fb.ibl[16]? = some nS) :
+    CurInv fb r1 r2 s.idxskip nS b s.loPrev ∧ s.idxskip % 2 = 0 := by
+  obtain ⟨_, _, _, inv0⟩ := new_spec hfb hr hrec hnS h0
+  obtain ⟨inv, _, _, _⟩ := runBlocks_spec hfb hnS b 0 s0 s1 inv0 h1
+  simp only [Nat.zero_add] at inv
+  obtain ⟨inv2, hprev, _⟩ := sieveBlock_spec hfb hnS inv h2
+  exact ⟨hprev, inv2.skip_even⟩
+
+/-- `class_loops_cover`. After `Sieve::new` (fresh or recycled tables), `b` rounds and `sieve_block()`: the `+=` sites
+of the class loops of `sieve_block` — classes 2..12 with the 4-at-a-time unrolled loop and the two tail loops,
+classes 13..15 one cursor at a time, index ranges taken from `idx_by_log` and clipped at `idxskip` — add at every
+position `x` of the block exactly `Σ_{k = idxskip}^{2·nS−1} rootF k`: every non-skipped cursor slot (`nS` = number of
+primes below 32768; slot `2i` ↔ root `r1[i]`, slot `2i+1` ↔ root `r2[i]` when it differs from `r1[i]`) is visited
+exactly once and contributes the bit length of its prime exactly at the positions of its arithmetic progression
+`b·32768 + x ≡ root (mod p)`; the skipped slots `k < idxskip` contribute nothing. -/
+theorem class_loops_cover (fb : FB) (hfb : fb.WF) (r1 r2 : Array Nat) (hr : RootsOK fb r1 r2)
+    (offset : Int) (nblocks : Nat) (recycled : Option (Array Table × Array LTable)) (hrec : RecycledOK recycled)
+    (s0 s1 s : State) (h0 : Sieve.new offset nblocks fb r1 r2 recycled = some s0)
+    (b : Nat) (h1 : runBlocks fb b s0 = some s1) (h2 : sieveBlock fb s1 = some s)
+    (nS : Nat) (hnS : fb.ibl[16]? = some nS)
+    (l : List (Nat × Nat)) (hl : smallHits fb s.idxskip s.loPrev = some l) :
+    ∀ x, x < 32768 → hitSum l x = rangeSum (rootF fb r1 r2 b x) s.idxskip (2 * nS - s.idxskip) := by
+  obtain ⟨hprev, hev⟩ := state_for_block hfb hr hrec h0 h1 h2 hnS
+  intro x hx
+  rw [smallHits_sum hfb hnS hev hprev (by simpa [BLOCK] using hx) hl]
+  exact rangeSum_congr (fun k hk1 hk2 => slotF_eq_rootF hfb hnS hprev (by omega) hk1)
+
+/-- `accumulator_spec_partial`: the general form (closed form for the primes below the block size + bucket tables).
+Whenever the model of `sieve_block` returns the byte array of block `b`: byte `x` is
+`Σ_{k = idxskip}^{2·nS−1} rootF k` — the sum of `bitlen p` over the non-skipped factor-base primes `p < 32768` with a
+root at `x`, each prime counted once per distinct root (`class_loops_cover`) — plus the logs read back from the
+bucket tables (`tableHits`), exactly in the checked profile and modulo 256 in release. When the factor base has no
+prime ≥ 32768 (`s.tables.size = 0`: no bucket table exists and the code returns before the table loops) this is
+the complete closed form `blk[x] = Σ bitlen p over the non-skipped primes with a root at x`.
+PARTIAL (name): for primes ≥ 32768 it is not proved that the bucket entries read back are exactly the hits
+registered by `new`/`rehash` for this block (the oracle checks the closed form including them on the code). -/
+theorem accumulator_spec_partial (dbg : Bool) (fb : FB) (hfb : fb.WF) (r1 r2 : Array Nat) (hr : RootsOK fb r1 r2)
+    (offset : Int) (nblocks : Nat) (recycled : Option (Array Table × Array LTable)) (hrec : RecycledOK recycled)
+    (s0 s1 s : State) (h0 : Sieve.new offset nblocks fb r1 r2 recycled = some s0)
+    (b : Nat) (h1 : runBlocks fb b s0 = some s1) (h2 : sieveBlock fb s1 = some s)
+    (nS : Nat) (hnS : fb.ibl[16]? = some nS) (blk : Array Nat) (h : blkOf dbg fb s = some blk) :
+    ∃ th, tableHits s = some th ∧ (s.tables.size = 0 → th = []) ∧ ∀ x, x < 32768 →
+      byteAt blk x % 256 = (rangeSum (rootF fb r1 r2 b x) s.idxskip (2 * nS - s.idxskip) + hitSum th x) % 256 ∧
+      (dbg = true → byteAt blk x = rangeSum (rootF fb r1 r2 b x) s.idxskip (2 * nS - s.idxskip) + hitSum th x) := by
+  obtain ⟨hits, hh, _, _, hm, hd, _⟩ := accumulator_hits_spec dbg fb s blk h
+  unfold allHits at hh
+  simp only [Option.bind_eq_bind, Option.bind_eq_some_iff, Option.some.injEq] at hh
+  obtain ⟨l, hl, th, hth, rfl⟩ := hh
+  have hc := class_loops_cover fb hfb r1 r2 hr offset nblocks recycled hrec s0 s1 s h0 b h1 h2 nS hnS l hl
+  refine ⟨th, hth, ?_, ?_⟩
+  · intro h0'
+    unfold tableHits at hth
+    simp only [h0', if_true, Option.some.injEq] at hth
+    exact hth.symm
+  · intro x hx
+    constructor
+    · rw [hm x, hitSum_append, hc x hx]
+    · intro hdb; rw [hd hdb x, hitSum_append, hc x hx]
+
+/-- `accumulator_spec_small`: the full closed form `blk[x] = Σ bitlen p over the non-skipped primes with a root at x`
+(exact in the checked profile, modulo 256 in release) for factor bases whose primes are all below the block size
+(`s.tables.size = 0`: no bucket table exists). -/
+theorem accumulator_spec_small (dbg : Bool) (fb : FB) (hfb : fb.WF) (r1 r2 : Array Nat) (hr : RootsOK fb r1 r2)
+    (offset : Int) (nblocks : Nat) (recycled : Option (Array Table × Array LTable)) (hrec : RecycledOK recycled)
+    (s0 s1 s : State) (h0 : Sieve.new offset nblocks fb r1 r2 recycled = some s0)
+    (b : Nat) (h1 : runBlocks fb b s0 = some s1) (h2 : sieveBlock fb s1 = some s)
+    (nS : Nat) (hnS : fb.ibl[16]? = some nS) (hsmall : s.tables.size = 0)
+    (blk : Array Nat) (h : blkOf dbg fb s = some blk) :
+    ∀ x, x < 32768 →
+      byteAt blk x % 256 = rangeSum (rootF fb r1 r2 b x) s.idxskip (2 * nS - s.idxskip) % 256 ∧
+      (dbg = true → byteAt blk x = rangeSum (rootF fb r1 r2 b x) s.idxskip (2 * nS - s.idxskip)) := by
+  obtain ⟨th, _, hth, hx⟩ := accumulator_spec_partial dbg fb hfb r1 r2 hr offset nblocks recycled hrec s0 s1 s h0 b h1
+    h2 nS hnS blk h
+  have := hth hsmall
+  subst this
+  intro x hx'
+  have := hx x hx'
+  simpa [hitSum_nil] using this
+
+/-- `accumulator_no_overflow_small`: for factor bases whose primes are all below the block size, under the hypothesis of
+`log_sum_bound` — at every position `x` the non-skipped primes with a root at `x` (true roots: they divide the
+polynomial value) all belong to a finite set of primes dividing some `v ≠ 0` with `bitlen v + #primes ≤ 256` — no `+=`
+site of `sieve_block` overflows: the checked model returns whenever the release model does, with the same bytes,
+and every byte is the closed form (no wrap). The link `Σ of the added logs ≤ Σ bitlen p over those primes` is
+PROVED (`class_loops_cover`, each prime at most once per position, distinct primes). -/
+theorem accumulator_no_overflow_small (fb : FB) (hfb : fb.WF) (r1 r2 : Array Nat) (hr : RootsOK fb r1 r2)
+    (offset : Int) (nblocks : Nat) (recycled : Option (Array Table × Array LTable)) (hrec : RecycledOK recycled)
+    (s0 s1 s : State) (h0 : Sieve.new offset nblocks fb r1 r2 recycled = some s0)
+    (b : Nat) (h1 : runBlocks fb b s0 = some s1) (h2 : sieveBlock fb s1 = some s)
+    (nS : Nat) (hnS : fb.ibl[16]? = some nS) (hsmall : s.tables.size = 0)
+    (blk0 : Array Nat) (hrel : blkOf false fb s = some blk0)
+    (hdiv : ∀ x, x < 32768 → ∃ (ps : Finset ℕ) (v : ℕ), (∀ p ∈ ps, p.Prime) ∧ v ≠ 0 ∧ (∀ p ∈ ps, p ∣ v) ∧
+      bitlen v + ps.card ≤ 256 ∧
+      ∀ i p o, s.idxskip ≤ 2 * i → fb.primes[i]? = some p → p < 32768 → (r1[i]? = some o ∨ r2[i]? = some o) →
+        (b * 32768 + x) % p = o → p ∈ ps) :
+    blkOf true fb s = some blk0 ∧
+      ∀ x, x < 32768 → byteAt blk0 x = rangeSum (rootF fb r1 r2 b x) s.idxskip (2 * nS - s.idxskip) := by
+  obtain ⟨hprev, hev⟩ := state_for_block hfb hr hrec h0 h1 h2 hnS
+  obtain ⟨hits, hh, _, hin, _, _, _⟩ := accumulator_hits_spec false fb s blk0 hrel
+  have hh' := hh
+  unfold allHits at hh'
+  simp only [Option.bind_eq_bind, Option.bind_eq_some_iff, Option.some.injEq] at hh'
+  obtain ⟨l, hl, th, hth, rfl⟩ := hh'
+  have hth0 : th = [] := by
+    unfold tableHits at hth
+    simp only [hsmall, if_true, Option.some.injEq] at hth
+    exact hth.symm
+  subst hth0
+  have hnn := hfb.ibl_le _ _ hnS
+  -- the bound at every position
+  have hbound : ∀ x, x < 32768 → ∃ (ps : Finset ℕ) (v : ℕ), (∀ p ∈ ps, p.Prime) ∧ v ≠ 0 ∧ (∀ p ∈ ps, p ∣ v) ∧
+      bitlen v + ps.card ≤ 256 ∧ hitSum (l ++ []) x ≤ ∑ p ∈ ps, bitlen p := by
+    intro x hx
+    obtain ⟨ps, v, hp, hv, hd, hb, hmem⟩ := hdiv x hx
+    refine ⟨ps, v, hp, hv, hd, hb, ?_⟩
+    rw [List.append_nil, smallHits_sum hfb hnS hev hprev (by simpa [BLOCK] using hx) hl]
+    refine smallSum_le hfb hnS hev hprev ps ?_
+    intro i p hge hi hpi hpos
+    have hps := prime_small hfb hnS (k := 2 * i) (by omega) (by
+      have : (2 * i) / 2 = i := by omega
+      rw [this]; exact hpi)
+    obtain ⟨o1, o2, ho1, ho2, _⟩ := hr i p hpi
+    -- one of the two slots is positive: its root matches
+    have e0 : (2 * i) / 2 = i := by omega
+    have e1 : (2 * i + 1) / 2 = i := by omega
+    rw [slotF_eq_rootF hfb hnS hprev (by omega) hge, slotF_eq_rootF hfb hnS hprev (by omega) (by omega)] at hpos
+    unfold rootF at hpos
+    simp only [e0, e1, hpi, ho1, ho2] at hpos
+    by_cases c0 : ((2 * i) % 2 = 0 ∨ o1 ≠ o2) ∧ (b * BLOCK + x) % p = (if (2 * i) % 2 = 0 then o1 else o2)
+    · have m0 : (2 * i) % 2 = 0 := by omega
+      simp only [m0, if_true] at c0
+      exact hmem i p o1 hge hpi hps (Or.inl ho1) (by simpa [BLOCK] using c0.2)
+    · rw [if_neg c0, Nat.zero_add] at hpos
+      by_cases c1 : ((2 * i + 1) % 2 = 0 ∨ o1 ≠ o2) ∧
+          (b * BLOCK + x) % p = (if (2 * i + 1) % 2 = 0 then o1 else o2)
+      · have m1 : ¬ (2 * i + 1) % 2 = 0 := by omega
+        simp only [m1, if_false] at c1
+        exact hmem i p o2 hge hpi hps (Or.inr ho2) (by simpa [BLOCK] using c1.2)
+      · rw [if_neg c1] at hpos; omega
+  obtain ⟨blk, e1, e2, e3⟩ := accumulator_no_overflow_partial fb s (l ++ []) hh hin hbound
+  rw [hrel] at e2
+  have := Option.some.inj e2
+  subst this
+  refine ⟨e1, ?_⟩
+  intro x hx
+  rw [e3 x, List.append_nil, class_loops_cover fb hfb r1 r2 hr offset nblocks recycled hrec s0 s1 s h0 b h1 h2 nS hnS
+    l hl x hx]
+
+theorem factorsAt_zip {fb : FB} {s : State} {r1 r2 : Array Nat} :
+    ∀ (res : List Nat) (facs : List (List Nat)), factorsAt fb s r1 r2 res = some facs →
+      (∀ xf ∈ res.zip facs, factorsOf fb s r1 r2 xf.1 = some xf.2) ∧ (∀ x ∈ res, ∃ f, (x, f) ∈ res.zip facs) := by
+  intro res
+  induction res with
+  | nil => intro facs _; simp
+  | cons a t ih =>
+    intro facs h
+    unfold factorsAt at h
+    rw [List.mapM_cons] at h
+    simp only [bind, Option.bind_eq_some_iff, pure, Option.some.injEq] at h
+    obtain ⟨f, hf, fs, hfs, rfl⟩ := h
+    obtain ⟨i1, i2⟩ := ih fs hfs
+    constructor
+    · intro xf hxf
+      simp only [List.zip_cons_cons, List.mem_cons] at hxf
+      rcases hxf with rfl | hxf
+      · exact hf
+      · exact i1 xf hxf
+    · intro x hx
+      rcases List.mem_cons.1 hx with rfl | hx
+      · exact ⟨f, by simp⟩
+      · obtain ⟨g, hg⟩ := i2 x hx
+        exact ⟨g, by simp only [List.zip_cons_cons, List.mem_cons]; exact Or.inr hg⟩
+
+/-- `smooth_candidate_reported`. After `Sieve::new`, `b < nblocks` rounds and `sieve_block()`, when
+`smooths(threshold ≥ 1, root, roots)` returns `(res, facs)`: every position `x` of the block whose byte exceeds
+`threshold2` and whose corrected value (byte + logs of the skipped primes with a root at `x` + root-distance bonus)
+reaches the threshold — in particular a position where the polynomial value is fully smooth over the factor base
+and the log sum of its non-skipped primes, which `accumulator_spec_small` identifies with the byte, clears the threshold —
+IS reported (`x ∈ res`), and the factor list attached to it contains every factor-base prime with a root at `x`
+(`listed_complete`; size classes 16..18 up to the `n_overflows − 32` counted losses): trial division by the list
+(`cofactor_spec`) then leaves cofactor 1 for a fully smooth value. -/
+theorem smooth_candidate_reported (dbg : Bool) (fb : FB) (hfb : fb.WF) (r1 r2 : Array Nat) (hr : RootsOK fb r1 r2)
+    (offset : Int) (nblocks : Nat) (hN : nblocks ≤ 2 ^ 17)
+    (recycled : Option (Array Table × Array LTable)) (hrec : RecycledOK recycled)
+    (s0 : State) (h0 : Sieve.new offset nblocks fb r1 r2 recycled = some s0)
+    (b : Nat) (hb : b < nblocks) (s1 : State) (h1 : runBlocks fb b s0 = some s1)
+    (s : State) (h2 : sieveBlock fb s1 = some s)
+    (blk : Array Nat) (threshold : Nat) (hthr : 1 ≤ threshold) (root : Option Nat)
+    (res : List Nat) (facs : List (List Nat))
+    (hsm : SieveLog.smooths dbg fb s blk threshold root r1 r2 = some (res, facs))
+    (x : Nat) (hx : x < 32768) (threshold2 t0 t1 t2 : Nat) (ht2 : threshold2Of fb s threshold root = some threshold2)
+    (hb0 : blk[x]? = some t0) (hgt : threshold2 < t0) (ha : addSkipped dbg fb s x t0 = some t1)
+    (hc : rootComp dbg s (mzerosOf s) root x t1 = some t2) (hge : threshold ≤ t2) :
+    x ∈ res ∧ ∃ f, (x, f) ∈ res.zip facs ∧
+      ∃ lost : Nat → List (Nat × Nat),
+        (∀ (ti : Nat) (t : Table), s.tables[ti]? = some t → (lost ti).length = t.nOverflows - 32) ∧
+        ∀ pidx p o, fb.primes[pidx]? = some p → (r1[pidx]? = some o ∨ r2[pidx]? = some o) →
+          (b * 32768 + x) % p = o →
+          pidx ∈ f ∨ (16 ≤ bitlen p ∧ bitlen p ≤ 18 ∧ (b * 32768 + x, pidx % 2 ^ 32) ∈ lost (bitlen p - 16)) := by
+  unfold SieveLog.smooths at hsm
+  simp only [Option.bind_eq_bind, Option.bind_eq_some_iff, Option.some.injEq, Prod.mk.injEq] at hsm
+  obtain ⟨res', hres, facs', hfacs, rfl, rfl⟩ := hsm
+  obtain ⟨th2, e1, _, hmem⟩ := smooths_threshold_spec dbg fb s blk threshold root res' hthr hres
+  rw [ht2] at e1
+  have := Option.some.inj e1; subst this
+  have hxr : x ∈ res' := (hmem x).2 ⟨hx, t0, t1, t2, hb0, hgt, ha, hc, hge⟩
+  obtain ⟨z1, z2⟩ := factorsAt_zip res' facs' hfacs
+  obtain ⟨f, hf⟩ := z2 x hxr
+  obtain ⟨lost, hl, hcpl⟩ := listed_complete fb hfb r1 r2 hr offset nblocks hN recycled hrec s0 h0 b hb s1 h1 s h2
+  exact ⟨hxr, f, hf, lost, hl, fun pidx p o hp hroot hmod => hcpl x hx f (z1 (x, f) hf) pidx p o hp hroot hmod⟩
 
 end Ymq.C13
